@@ -41,7 +41,8 @@ from multiprocessing import Pool
 
 from harness import vloop
 from harness.base import Results, corpus_lines
-from harness.c02_util import PROTO_CLASS, id_token, py_detect, value, value_token
+from harness.c02_util import (PROTO_CLASS, case_wire, id_token, py_detect, resp_len, same_id, value,
+                              value_token)
 from tools.facts.common import fresh_import
 
 
@@ -173,7 +174,7 @@ def setlim_answer_ok(jr, proto, msg, rid, lim):
 def recv_batch(jr, conn, case):
     """receive the batch on `conn`; returns (rec, deliver) where deliver(m) hands member m's
     result to its `send_result` (False: stop)"""
-    raw = json.dumps(case['members']).encode()
+    raw = case_wire(case)
     rec = {'raised': None, 'calls': [], 'lens': [], 'exc': None, 'items': None, 'rawlens': []}
     try:
         items = conn.receive_message(raw)
@@ -211,7 +212,7 @@ def recv_batch(jr, conn, case):
                 rec['exc'] = type(e).__name__
                 return False
         try:
-            rec['lens'].append(len(inforce.response_message(result, kinds[m][1])))
+            rec['lens'].append(resp_len(inforce, result, kinds[m][1]))
             out = it.send_result(result)
         except Exception as e:   # noqa
             rec['exc'] = type(e).__name__
@@ -280,7 +281,7 @@ def run_impl_single(jr, case):
     conn.max_response_size = case['max']
     rec = {'exc': None, 'reply': None, 'len': 0, 'items': None, 'raised': None}
     try:
-        items = conn.receive_message(json.dumps(case['single']).encode())
+        items = conn.receive_message(case_wire(case))
     except jr.ProtocolError as e:
         rec['raised'] = decode_entry(json.loads(e.error_message)) if e.error_message else 'no-message'
         return rec
@@ -293,10 +294,14 @@ def run_impl_single(jr, case):
         result, _ = result_for(jr, 0, case.get('err'))
         rid = case['single'].get('id')
         inforce = getattr(jr, PROTO_CLASS[case.get('inforce', case['proto'])])
-        rec['len'] = len(inforce.response_message(result, rid))
+        rec['len'] = resp_len(inforce, result, rid)
         if 'lim' in case:
             set_limit(conn, case['lim'], case.get('decoy'))
-        out = items[0].send_result(result)
+        try:
+            out = items[0].send_result(result)
+        except Exception as e:   # noqa
+            rec['exc'] = type(e).__name__
+            return rec
         rec['reply'] = None if out is None else decode_entry(json.loads(out))
     return rec
 
@@ -340,7 +345,9 @@ def batch_oracle(case, rec):
     busy = set(case.get('busy', ()))
     off = case.get('moff', 0)
     if rec['exc']:
-        return 'c02:unexpected-exception:' + rec['exc'], 'escaped receive_message / send_result'
+        return ('c02:unexpected-exception:' + rec['exc'],
+                'escaped receive_message / send_result: no batch response carrying the ids of these requests '
+                'can come out')
     if 'sent' in rec:
         sent = list(rec['sent'])
     else:
@@ -441,9 +448,8 @@ def _sched(case):
 
 
 def same_json(a, b):
-    if isinstance(a, bool) or isinstance(b, bool):
-        return a is b
-    return a == b and (a is None) == (b is None)
+    """the same id value (NaN is the same id as NaN; see harness/c02_util.same_id)"""
+    return same_id(a, b)
 
 
 def single_oracle(case, rec):
@@ -454,7 +460,8 @@ def single_oracle(case, rec):
     proto = case.get('inforce', case['proto'])
     kind = classify_member(proto, case['single'])
     if rec['exc']:
-        return 'c02:unexpected-exception:' + rec['exc'], 'escaped'
+        return ('c02:unexpected-exception:' + rec['exc'],
+                f'escaped receive_message / send_result: no response carrying the id {kind[1:]!r} comes out')
     if kind[0] == 'invalid':
         return None
     if rec['raised'] is not None:
@@ -655,6 +662,54 @@ def evaluate(ctx, cases, res, scope):
 REQ_IDS = (7, 0.5, 'a')          # int, float, str; equal choices give duplicate ids
 
 
+INF, NAN = float('inf'), float('nan')
+BIG = 1e308                      # a very large FINITE float: the control next to the infinities
+# (id value, raw JSON token or None = what json.dumps writes: `Infinity` `-Infinity` `NaN` `1e+308`)
+NONFINITE_IDS = ((INF, '1e999'), (-INF, '-1e999'), (INF, None), (-INF, None), (NAN, None),
+                 (BIG, None), (-1.7976931348623157e308, None))
+
+
+def nonfinite_cases(jr, maxlen, protos):
+    """request ids that are non-finite floats.  JSON-RPC 2.0 admits every Number as id; the
+    legal JSON numbers `1e999` / `-1e999` are read by `json.loads` as +inf / -inf, and it also
+    accepts the tokens `Infinity` `-Infinity` `NaN`.  Every composition up to `maxlen` members
+    over {request id +inf (written `1e999` or `Infinity`, by member parity), request id -inf
+    (`-Infinity` / `-1e999`), request id NaN, request id 1e308 (finite control), request id 7,
+    notification, invalid member with id +inf, invalid member with id NaN} (equal choices give
+    duplicate non-finite ids; NaN != NaN) x every completion order x the limits of
+    `limits_for`.  The clause judged is "one response / one entry carrying that request's id":
+    the id token that comes back must denote the same value (validity of the token `Infinity`
+    as JSON is C05's known finding, not judged here)."""
+    def mk(style, m, idv=None, **kw):
+        p = {'method': 'm', 'params': [m]}
+        if style == 'v2':
+            p['jsonrpc'] = '2.0'
+        if idv is not None:
+            p['id'] = idv
+        return dict(p, **kw)
+    opts = [('req', lambda st, m: (mk(st, m, INF), '1e999' if m % 2 == 0 else None)),
+            ('req', lambda st, m: (mk(st, m, -INF), '-1e999' if m % 2 else None)),
+            ('req', lambda st, m: (mk(st, m, NAN), None)),
+            ('req', lambda st, m: (mk(st, m, BIG), None)),
+            ('req', lambda st, m: (mk(st, m, 7), None)),
+            ('notif', lambda st, m: (mk(st, m), None)),
+            ('invalid', lambda st, m: (mk(st, m, INF, method=1), '1e999' if m % 2 else None)),
+            ('invalid', lambda st, m: (mk(st, m, NAN, method=1), None))]
+    for proto in protos:
+        style = 'v2' if proto in ('v2', 'auto') else 'loose'
+        for n in range(1, maxlen + 1):
+            for combo in itertools.product(range(len(opts)), repeat=n):
+                built = [opts[k][1](style, m) for m, k in enumerate(combo)]
+                members = [b[0] for b in built]
+                raw = {str(m): b[1] for m, b in enumerate(built) if b[1]}
+                reqs = [m for m, k in enumerate(combo) if opts[k][0] == 'req']
+                errs = [m for m in reqs if m % 3 == 2]
+                for order in itertools.permutations(reqs):
+                    for mx in limits_for(jr, proto, members, order, errs, False):
+                        yield {'proto': proto, 'max': mx, 'members': members, 'order': list(order),
+                               'errs': errs, 'raw': raw}
+
+
 def member_options(style):
     """every kind of member: requests with each admissible id type, two notification forms,
     two invalid forms (id recoverable / not)"""
@@ -694,7 +749,7 @@ def limits_for(jr, proto_name, members, order, errs, rich):
     lens = []
     for m in order:
         result, _ = result_for(jr, m, m in errs)
-        lens.append(len(proto.response_message(result, members[m].get('id'))))
+        lens.append(resp_len(proto, result, members[m].get('id')))
     inc = WIRE['inc']
     first = lens[0] + inc
     total = sum(l + inc for l in lens)
@@ -768,7 +823,7 @@ def schedule_cases(jr, maxlen, protos, thin=1):
                     continue
                 errs = [m for m in reqs if m % 3 == 2]
                 for order in itertools.permutations(reqs):
-                    lens = [len(cls.response_message(result_for(jr, m, m in errs)[0], members[m]['id']))
+                    lens = [resp_len(cls, result_for(jr, m, m in errs)[0], members[m]['id'])
                             for m in order]
                     run, points = 0, []
                     for l in lens:
@@ -783,7 +838,8 @@ def schedule_cases(jr, maxlen, protos, thin=1):
                                    'errs': errs, 'lims': list(lims), 'decoy': bool(count % 2)}
 
 
-def multi_cases(jr, rng, n_random):
+def multi_cases(jr, rng, n_random, kinds=('r7', 'ra', 'n', 'x'), protos=('v2', 'loose'),
+                moving=True):
     """two request batches in flight on one connection (the closure state of the one must not
     leak into the other): every pair of compositions up to 2 members from {request id 7, request
     id "a", notification, invalid} x every interleaving of their deliveries, x a limit; plus
@@ -794,14 +850,17 @@ def multi_cases(jr, rng, n_random):
             p['jsonrpc'] = '2.0'
         if kind == 'r7':
             p['id'] = 7
+        elif kind == 'rinf':
+            p['id'] = INF
+        elif kind == 'rnan':
+            p['id'] = NAN
         elif kind == 'ra':
             p['id'] = 'a'
         elif kind == 'x':
             p = dict(p, id=3, method=1)
         return p
-    kinds = ('r7', 'ra', 'n', 'x')
     comps = [c for n in (1, 2) for c in itertools.product(kinds, repeat=n)]
-    for proto in ('v2', 'loose'):
+    for proto in protos:
         style = proto
         for a in comps:
             for b in comps:
@@ -809,7 +868,9 @@ def multi_cases(jr, rng, n_random):
                 for comp in (a, b):
                     members = [mk(style, k, m) for m, k in enumerate(comp)]
                     reqs = [m for m, k in enumerate(comp) if k[0] == 'r']
-                    subs.append({'members': members, 'order': reqs, 'errs': []})
+                    # an id +inf is written as the legal JSON number `1e999` by the first batch
+                    raw = {str(m): '1e999' for m, k in enumerate(comp) if k == 'rinf' and comp is a}
+                    subs.append({'members': members, 'order': reqs, 'errs': [], 'raw': raw})
                 na, nb = len(subs[0]['order']), len(subs[1]['order'])
                 if na + nb == 0:
                     inter = [()]
@@ -821,7 +882,7 @@ def multi_cases(jr, rng, n_random):
                               for s, r in zip(subs, rev)]
                         for mx in (0, 50):
                             yield {'proto': proto, 'max': mx, 'multi': ss, 'interleave': list(il)}
-                        if il:
+                        if il and moving:
                             # the connection's limit changes between the deliveries (each
                             # delivery, of whichever batch, sees the value of its moment)
                             for mx, alt in ((50, (0, 50)), (0, (50, 0)), (0, (36, 80))):
@@ -832,7 +893,7 @@ def multi_cases(jr, rng, n_random):
         proto = rng.choice(['v2', 'loose'])
         if a['proto'] == 'auto' or b['proto'] == 'auto' or a['proto'] != b['proto']:
             continue
-        subs = [{k: c[k] for k in ('members', 'order', 'errs', 'unenc')} for c in (a, b)]
+        subs = [{k: c[k] for k in ('members', 'order', 'errs', 'unenc', 'raw')} for c in (a, b)]
         il = [0] * len(a['order']) + [1] * len(b['order'])
         rng.shuffle(il)
         c = {'proto': a['proto'], 'max': rng.choice([0, a['max'], b['max']]), 'multi': subs,
@@ -846,7 +907,8 @@ def single_cases(jr):
     out = []
     for proto in ('v1', 'v2', 'loose', 'auto'):
         style = {'v1': 'v1', 'v2': 'v2', 'loose': 'loose', 'auto': 'v2'}[proto]
-        for idv in (7, 0, -3, 1.5, 2.0, 'a', '', None) + (([1], {'a': 1}) if proto == 'v1' else ()):
+        plain = (7, 0, -3, 1.5, 2.0, 'a', '', None) + (([1], {'a': 1}) if proto == 'v1' else ())
+        for idv, rawtok in [(i, None) for i in plain] + list(NONFINITE_IDS):
             for err in (False, True):
                 if style == 'v1':
                     p = {'method': 'm', 'params': [0], 'id': idv}
@@ -859,9 +921,10 @@ def single_cases(jr):
                 proto_cls = getattr(jr, PROTO_CLASS[style])
                 result, _ = result_for(jr, 0, err)
                 try:
-                    ln = len(proto_cls.response_message(result, idv))
+                    ln = resp_len(proto_cls, result, idv)
                 except Exception:   # noqa
                     ln = 60
+                n0 = len(out)
                 for mx in (0, ln, ln - 1, 1, ln + 1):
                     out.append({'proto': proto, 'max': mx, 'single': p, 'err': err})
                 # the limit is changed between the receipt of the request and its result
@@ -873,12 +936,20 @@ def single_cases(jr):
                             k += 1
                             out.append({'proto': proto, 'max': a, 'lim': b, 'single': p, 'err': err,
                                         'decoy': bool(k % 2)})
+                if rawtok:
+                    for c in out[n0:]:
+                        c['raw'] = {'0': rawtok}
         # invalid single messages (what they get is compared with the model, not judged)
         for bad in ({'jsonrpc': '2.0', 'method': 1, 'id': 4}, {'jsonrpc': '2.0', 'method': 'm', 'params': 'oops', 'id': 5},
-                    {'jsonrpc': '2.0', 'method': 'm', 'id': [1]}, {'jsonrpc': '2.0', 'method': None}, 5, 'x'):
+                    {'jsonrpc': '2.0', 'method': 'm', 'id': [1]}, {'jsonrpc': '2.0', 'method': None}, 5, 'x',
+                    {'jsonrpc': '2.0', 'method': 1, 'id': INF}, {'jsonrpc': '2.0', 'method': 1, 'id': NAN},
+                    ({'jsonrpc': '2.0', 'method': 1, 'id': -INF}, '-1e999')):
+            bad, rawtok = bad if isinstance(bad, tuple) else (bad, None)
             if proto == 'auto' and not isinstance(bad, dict):
                 continue
             out.append({'proto': proto, 'max': 0, 'single': bad, 'err': False})
+            if rawtok:
+                out[-1]['raw'] = {'0': rawtok}
     return out
 
 
@@ -889,6 +960,10 @@ def random_case(rng, jr):
     members = []
     ids = [rng.choice([rng.randint(-2, 5), rng.randint(0, 6) / 2, rng.choice(['a', 'b', '', '7'])])
            for _ in range(3)]
+    if rng.random() < 0.2:
+        # one or two of the ids in play are non-finite floats (or the very large finite control)
+        for _ in range(rng.randint(1, 2)):
+            ids[rng.randrange(3)] = rng.choice([INF, -INF, NAN, BIG])
     for m in range(n):
         r = rng.random()
         p = {'method': 'm', 'params': [m]}
@@ -917,8 +992,12 @@ def random_case(rng, jr):
     lim = list(limits_for(jr, proto, [p if isinstance(p, dict) else {} for p in members], order, errs, True))
     mx = rng.choice(lim + [rng.randint(1, 400)])
     nerrs = [m for m, k in enumerate(kinds) if k[0] == 'notif' and rng.random() < 0.3]
+    # an infinite id is written as the legal JSON number 1e999 / -1e999 half of the time
+    raw = {str(m): ('1e999' if p['id'] > 0 else '-1e999') for m, p in enumerate(members)
+           if isinstance(p, dict) and isinstance(p.get('id'), float) and p['id'] in (INF, -INF)
+           and rng.random() < 0.5}
     case = {'proto': proto, 'max': mx, 'members': members, 'order': order, 'errs': errs,
-            'unenc': unenc, 'nerrs': nerrs}
+            'unenc': unenc, 'nerrs': nerrs, 'raw': raw}
     if order and rng.random() < 0.5:
         # the limit changes while the batch is in flight: stays / 0 / a decision point / anything
         pool = lim + [0, mx, mx, rng.randint(1, 400)]
@@ -940,7 +1019,11 @@ RULE = ('case = (protocol, max_response_size, batch composition, completion orde
         'flight: every composition up to 3 members over {request int/str id, notification, invalid} x every '
         'completion order x every schedule (value at receipt, value at each supply) over the decision points of '
         'each delivery (0, entry alone too large, running size exceeds by one / fits exactly), singles with every '
-        'pair (limit at receipt, limit at supply) around the response length, two batches in flight with the limit '
+        'pair (limit at receipt, limit at supply) around the response length; request ids that are non-finite '
+        'floats (+inf written 1e999 / Infinity, -inf, NaN, and 1e308 as finite control) as singles on all four '
+        'protocols, in every composition up to 3 members (duplicates, mixed with ordinary ids, invalid members '
+        'carrying them) x every completion order, in two batches in flight, in the random batches and at the '
+        'session / back-pressure layers (raw wire text); two batches in flight with the limit '
         'alternating between deliveries, half of the random batches with a random schedule; single requests/notifications on all four protocols with '
         'every id type x limits at the boundary; a first attempt with an unencodable result by each request member; two '
         'batches in flight on one connection x every interleaving of their deliveries; seeded random batches up to 8 '
@@ -964,6 +1047,9 @@ def run(ctx):
         elif c.get('layer') == 'session':
             c02_session.replay(ctx, c, res)
     evaluate(ctx, single_cases(jr), res, 'singles')
+    evaluate(ctx, list(nonfinite_cases(jr, 3, ('v2', 'loose'))), res, 'nonfinite_float_ids_len_le_3')
+    evaluate(ctx, list(multi_cases(jr, rng, 0, kinds=('rinf', 'rnan', 'r7', 'x'), protos=('v2',),
+                                   moving=False)), res, 'two_batches_in_flight_nonfinite_ids')
     evaluate(ctx, list(unenc_cases(jr, 2 if not is_deep(ctx) else 3)), res, 'exhaustive_unencodable_attempt')
     evaluate(ctx, list(multi_cases(jr, rng, 300 if not is_deep(ctx) else 3000)), res, 'two_batches_in_flight')
     evaluate(ctx, list(schedule_cases(jr, 3, ('v2', 'loose'))), res, 'limit_schedules_len_le_3')
